@@ -269,6 +269,12 @@ def part_cia(ctx, tmp):
     for n in range(ctx.n(20, 200)):
         nranges = rng.choice([1, 1, 2])
         alltemps = sorted(rng.sample([100., 150., 200., 300., 400., 600., 1000., 2000., 3000.], rng.randint(2, 6)))
+        # every run (cases 0, 7, 14, ...): two ranges, the first with a hole inside its temperature coverage whose
+        # neighbouring record holds only negative values (measurement noise around zero, clipped by the reader)
+        forced_hole = (n % 7 == 0)
+        if forced_hole:
+            nranges = 2
+            alltemps = sorted(rng.sample([100., 150., 200., 300., 400., 600., 1000., 2000., 3000.], rng.randint(4, 6)))
         recs = []
         lo = 20.0
         groups = []
@@ -284,9 +290,13 @@ def part_cia(ctx, tmp):
                 temps = alltemps[start:start + k]
                 if rng.random() < 0.3 and len(temps) >= 3:      # a hole inside the range's coverage
                     temps = [temps[0]] + temps[2:]
+                if forced_hole:
+                    temps = ([alltemps[0]] + alltemps[2:]) if r == 0 else list(alltemps)
             groups.append((wn, temps))
-            for t in temps:
+            for ti, t in enumerate(temps):
                 sig = np.array([10 ** rng.uniform(-48, -43) * rng.choice([1, 1, 1, -1]) for _ in wn])
+                if forced_hole and r == 0 and ti == 0:
+                    sig = -np.abs(sig)
                 recs.append((float(wn[0]), float(wn[-1]), t, wn, sig))
         if len({t for _, _, t, _, _ in recs}) < 2:
             continue               # interpolation in temperature needs two temperatures (stated assumption)
